@@ -196,6 +196,53 @@ func runC07(r *engine.Run) {
 			vals[names[fi]] = doms[names[fi]][i/3]
 			c07Judge(c, cmd, vals)
 		})
+		// fields the library's struct has beyond the specification's table (e.g. OptNeg inside the
+		// DLSettings of RXParamSetupReq): lossless-or-error speaks about every payload *value*, so a
+		// value with such a field set is either refused or comes back unchanged
+		var extras []string
+		for n := range ftypes {
+			known := false
+			for _, k := range names {
+				known = known || k == n
+			}
+			if !known {
+				extras = append(extras, n)
+			}
+		}
+		sort.Strings(extras)
+		for _, n := range extras {
+			n := n
+			dom := c07Domain(ftypes[n], 0)
+			r.PartDims(fmt.Sprintf("values/%s-%s/library-only-field/%s", cmd.Name, dir, n), []string{"field: complete Go domain", "base tuple:3"}, uint64(len(dom))*3, func(c *engine.Case) {
+				c.Eval()
+				vals := base(int(c.Index % 3))
+				vals[n] = dom[c.Index/3]
+				v, ok := libValue(cmd, vals)
+				if !ok {
+					c.Outcome("values/not-representable-in-go-type")
+					return
+				}
+				enc, err := v.MarshalBinary()
+				if err != nil {
+					c.Outcome("values/refused")
+					return
+				}
+				c.NonTrivial()
+				back, _, _ := lorawan.GetMACPayloadAndSize(cmd.Uplink, lorawan.CID(cmd.CID))
+				if err := back.UnmarshalBinary(enc); err != nil {
+					c.Fail("values/"+cmd.Name+"/own-encoding-refused", fmt.Sprintf("%s {%s} -> %x: %v", cmd.Name, fmtVals(vals), enc, err), nil)
+					return
+				}
+				got := flatten(back)
+				for k, want := range vals {
+					if g, present := got[k]; present && g != want {
+						c.Fail("values/"+cmd.Name+"/"+k+"/silently-altered", fmt.Sprintf("%s {%s} encodes without error to %x, which decodes to {%s}", cmd.Name, fmtVals(vals), enc, fmtVals(got)), nil)
+						return
+					}
+				}
+				c.Outcome("values/library-only-field/lossless")
+			})
+		}
 		// all pairs for payloads of exactly two 8-bit-typed fields
 		if len(names) == 2 && len(doms[names[0]]) == 256 && len(doms[names[1]]) == 256 {
 			r.PartDims(fmt.Sprintf("values/%s-%s/pairs", cmd.Name, dir), []string{"field A:256", "field B:256"}, 65536, func(c *engine.Case) {
